@@ -3,7 +3,9 @@ import copy
 from harness import common, tstate
 from harness.common import Result
 
-RELAYS = ['$' + ('%X' % (i + 10)) * 40 + '~relay%d' % i for i in range(5)] + ['$' + 'F' * 40 + '=named', '$' + '1' * 40]
+RELAYS = ['$' + ('%X' % (i + 10)) * 40 + '~relay%d' % i for i in range(5)] + ['$' + 'F' * 40 + '=named', '$' + '1' * 40] + [
+    # nicknames of other legal shapes: a digit first, one character, the full 19 characters, all digits
+    '$' + '2' * 40 + '~4everTor', '$' + '3' * 40 + '~x', '$' + '4' * 40 + '=Nineteen0Characters', '$' + '5' * 40 + '~007']
 HOSTS = ['example.com:80', 'torproject.org:443', '10.0.0.1:22', 'foo.onion:80', 'relay1.exit:80', 'meejah.ca:443', '10.0.0.2:80']
 # ADDRMAP lines: names (some of them addresses themselves, one ending in .exit) and the addresses they are mapped to
 AM_NAMES = ['example.com', 'meejah.ca', 'svc.exit', 'foo.onion', '10.0.0.1', 'torproject.org']
